@@ -6,6 +6,7 @@ import (
 	"math"
 	"math/rand"
 	"strconv"
+	"strings"
 	"time"
 )
 
@@ -17,6 +18,7 @@ type Gen struct {
 	nextID int
 	tagSeq int
 	used   map[string]bool
+	loose  bool // entries need not have their first field populated and may be empty
 }
 
 func NewGen(seed int64) *Gen { return &Gen{R: rand.New(rand.NewSource(seed))} }
@@ -197,8 +199,18 @@ func (g *Gen) populate(tmpl []Node, pPop float64, look []string, first bool) []N
 			if g.R.Float64() < pPop {
 				cnt = 1 + g.R.Intn(3)
 			}
+			if g.loose {
+				cnt = 1 + g.R.Intn(4)
+			}
 			for e := 0; e < cnt; e++ {
-				c.Entries = append(c.Entries, g.populate(n.Tmpl, pPop, look, true))
+				switch {
+				case g.loose && g.R.Intn(3) == 0: // nothing populated
+					c.Entries = append(c.Entries, g.populate(n.Tmpl, 0, look, false))
+				case g.loose:
+					c.Entries = append(c.Entries, g.populate(n.Tmpl, pPop, look, pPop > 0 && g.R.Intn(2) == 0))
+				default:
+					c.Entries = append(c.Entries, g.populate(n.Tmpl, pPop, look, true))
+				}
 			}
 			out[i] = c
 		case "cmp":
@@ -382,13 +394,44 @@ func Frame(t Tags, beginString string, payload []byte) []byte {
 	return append(pre, []byte(fmt.Sprintf("%s=%03d\x01", t.Cs.String(), sum%256))...)
 }
 
+// Reframe recomputes BodyLength and CheckSum of a message laid out as BeginString, BodyLength, ..., CheckSum.
+// Bytes that are not laid out like that are returned unchanged.
+func Reframe(t Tags, wire []byte) []byte {
+	pre := t.Bs.String() + "="
+	if len(wire) == 0 || wire[len(wire)-1] != 1 || !strings.HasPrefix(string(wire), pre) {
+		return wire
+	}
+	i1 := bytes.IndexByte(wire, 1)
+	i2 := bytes.IndexByte(wire[i1+1:], 1)
+	if i2 < 0 {
+		return wire
+	}
+	i2 += i1 + 1
+	j := bytes.LastIndexByte(wire[:len(wire)-1], 1)
+	if j < i2 || !strings.HasPrefix(string(wire[i1+1:]), t.Bl.String()+"=") || !strings.HasPrefix(string(wire[j+1:]), t.Cs.String()+"=") {
+		return wire
+	}
+	return Frame(t, string(wire[len(pre):i1]), wire[i2+1:j+1])
+}
+
+// LooseEntryCase: group entries of which nothing, or not the first field, is populated (framing only: such entries are outside
+// the domain in which parsing inverts serialization, but C01 quantifies over every population).
+func (g *Gen) LooseEntryCase() *Case {
+	g.loose = true
+	c := g.RandomCase(false, g.R.Intn(3) == 0)
+	g.loose = false
+	c.ID = g.id("n")
+	c.NoParse, c.FrameOnly, c.Lookups = true, true, nil
+	return c
+}
+
 var rawTemplates = func() []Msg {
 	kv := func(tag, ty string) Node { return Node{K: "kv", Tag: S2B(tag), Ty: ty, Txt: B{}} }
 	plain := Msg{Tags: stdTags, BeginString: S2B("FIX.4.4"), MsgType: S2B("0"),
 		Header: []Node{kv("49", "string"), kv("34", "int")}, Body: []Node{kv("112", "string"), kv("7", "int")}}
 	grp := Msg{Tags: stdTags, BeginString: S2B("FIX.4.4"), MsgType: S2B("A"),
 		Header: []Node{kv("34", "int")},
-		Body: []Node{kv("98", "string"), {K: "grp", Tag: S2B("384"), Tmpl: []Node{kv("372", "string"), kv("385", "string")}}, kv("553", "string")}}
+		Body:   []Node{kv("98", "string"), {K: "grp", Tag: S2B("384"), Tmpl: []Node{kv("372", "string"), kv("385", "string")}}, kv("553", "string")}}
 	nested := Msg{Tags: stdTags, BeginString: S2B("FIX.4.4"), MsgType: S2B("V"),
 		Body: []Node{{K: "grp", Tag: S2B("146"), Tmpl: []Node{kv("55", "string"),
 			{K: "grp", Tag: S2B("454"), Tmpl: []Node{kv("455", "string"), kv("456", "int")}},
